@@ -217,6 +217,15 @@ def dispatch : Dispatch := fun _W op args =>
       else pure (ok "false" ++ " !model-spec-mismatch spec=true")
     else if m == c then pure (ok (boolStr m))
     else pure (ok (boolStr c) ++ " #defect=ratio-hash-M-divides-den #mirror=" ++ boolStr m)
+  | "fdecode", [a] => do
+    let x ← parseNum a
+    match x with
+    | .pfloat t b =>
+      match decode t b with
+      | .nan => pure (ok "nan")
+      | .inf neg => pure (ok ("inf " ++ (if neg then "-" else "+")))
+      | .fin m e => pure (ok ("fin " ++ intToHex m ++ " " ++ decStr e))
+    | _ => none
   | "implset", [] =>
     -- the impl headers / macro invocations the dispatch tables (`numPartialCmpK`, `absCmpK`, the
     -- harness tables) were transcribed from; the harness recomputes the digest from /repo's sources
